@@ -115,7 +115,6 @@ def run(ctx):
     ctx.assumptions = ["close() is not injected (Rust ignores its result)", "ENOENT is a legitimate 'absent', not a fault",
                        "a supervisor watchdog firing is a hang only if it reproduces three times"]
     ctx.exhaustive = True
-    work = ctx.new_dir("work")
     scs = scenarios(ctx)
     if ctx.quick:
         # all operations in sync@astd; a rotating third of them in each async mode
@@ -132,6 +131,7 @@ def run(ctx):
         scs = keep
     syscalls_reached = set()
     for si, sc in enumerate(scs):
+        work = ctx.new_dir(f"work{si}")
         tdir = os.path.join(work, f"t{si}")
         os.makedirs(tdir)
         crash.build_template(ctx, sc, tdir)
@@ -221,7 +221,7 @@ def run(ctx):
                 ctx.count("surfaced_as_Err" if not ev.is_ok(r) else "truthful_Ok_candidates")
                 judge(ctx, sc, cache, r, sig, det, extra, short=(en == "short"), name=name)
             ctx.rm(rdir)
-        ctx.rm(tdir)
+        ctx.rm(work)
     ctx.extra["distinct_syscalls_reached"] = sorted(syscalls_reached)
     ctx.extra["scenarios"] = [f"{s.name}@{s.mode}" for s in scs]
 
